@@ -45,6 +45,7 @@ def special_scenarios(ctx):
     done = []
     reps = 2 if ctx.tier == 'quick' else 12
     todo = [(i, ['names', 'resize', 'symlink-root', 'symlink-root-slash'][i % 4], None) for i in range(reps * 4)]
+    todo += [(reps * 4 + 100 + j, kind_, None) for j, kind_ in enumerate(['short-reads', 'replaced'] * (1 if ctx.tier == 'quick' else 4))]
     todo += [(reps * 4 + j, 'read-fault', (size, k)) for j, (size, k) in enumerate(
         (size, k) for size in ([1000, 20000] if ctx.tier == 'quick' else [1, 1000, 4096, 20000, 70000]) for k in range(1, 7 if size <= 4096 else 12))]
     for i, kind, param in todo:
@@ -68,6 +69,18 @@ def special_scenarios(ctx):
                 how = rng.choice(['truncate:%d' % rng.choice([0, 100, size // 2, size - 1]), 'append:%d' % rng.choice([1, 5000])])
                 when = rng.choice(['lseek@%s@1', 'read@%s@2'])
                 shim_env = {'ACTION': (when % os.path.realpath(victim)) + '=' + how, 'WATCH': os.path.realpath(it)}
+            elif kind == 'short-reads':
+                # read(2) on one file returns at most 1000 bytes per call (legal short reads, e.g. network file systems):
+                # the file is static, so its line must describe all of it
+                victim = os.path.join(it, 'sub', 'victim')
+                w.write(victim, 3, rng.choice([5000, 70000, 300000]))
+                shim_env = {'SHORT': '%s=%d' % (os.path.realpath(victim), rng.choice([1, 1000, 4095])), 'WATCH': os.path.realpath(it)}
+            elif kind == 'replaced':
+                # another file is renamed over the path between the walk's lstat and the open: from then on the file is
+                # static, so its line must carry the identity, size and hash of the file that was read
+                victim = os.path.join(it, 'sub', 'victim')
+                w.write(victim, 3, 11)
+                shim_env = {'ACTION': 'open@%s@1=replace-file:%d' % (os.path.realpath(victim), rng.choice([40000, 5])), 'WATCH': os.path.realpath(it)}
             elif kind == 'read-fault':
                 # one read of a new file fails, in the hashing pass or - once the entry header is already in the
                 # archive - in the archiving pass; files after it in the walk exist
@@ -91,6 +104,20 @@ def special_scenarios(ctx):
                 done.append((kind, 'unpublished'))
                 continue
             why = decode_check(bdir, [os.path.realpath(it)])
+            if not why and kind in ('short-reads', 'replaced'):
+                # truthful with respect to the (now static) source file
+                import hashlib
+                vp = os.path.realpath(os.path.join(it, 'sub', 'victim'))
+                st_ = os.lstat(vp)
+                data_ = open(vp, 'rb').read()
+                rec_ = [x for x in store.read_manifest(bdir) if x['path'] == vp]
+                if len(rec_) != 1:
+                    why = 'no manifest line for %s' % vp
+                elif (rec_[0]['dev'], rec_[0]['ino'], rec_[0]['mtime_ns'], rec_[0]['size']) != (st_.st_dev, st_.st_ino, st_.st_mtime_ns, st_.st_size):
+                    why = 'the line of %s records identity/size %s, the file that was read has %s' % (
+                        vp, (rec_[0]['dev'], rec_[0]['ino'], rec_[0]['mtime_ns'], rec_[0]['size']), (st_.st_dev, st_.st_ino, st_.st_mtime_ns, st_.st_size))
+                elif rec_[0]['hash'] != hashlib.sha512(data_).hexdigest():
+                    why = 'the line of %s does not record the SHA-512 of the file (%d bytes)' % (vp, len(data_))
             if why:
                 ctx.violation('property', 'special scenario %s: %s' % (kind, why), {'case': case, 'rc': r.rc, 'errors': r.errors()[:3]})
             recs = []
@@ -103,7 +130,7 @@ def special_scenarios(ctx):
                     ctx.violation('property', 'a file whose name contains CR/LF cannot be represented in the line-based manifest, yet the run exits 0', {'case': case})
                 if any('\r' in p or '\n' in p for p in recs):
                     ctx.violation('property', 'a CR/LF path was written into the manifest', {'case': case})
-            if kind not in ('resize', 'read-fault') and not why:
+            if kind not in ('resize', 'read-fault', 'short-reads', 'replaced') and not why:
                 want = {os.path.join(os.path.realpath(it), x) for x in ('ok one', 'sub/ok2', 'sub/dup')}
                 if set(recs) != want and not (kind == 'names' and set(recs) >= want):
                     ctx.violation('property', 'special scenario %s: manifest paths %s differ from the symlink-resolved source paths %s' % (kind, sorted(recs), sorted(want)),
